@@ -209,7 +209,8 @@ theorem goodDef (τ : Nat) (d : TyDef)
   | any =>
     cases v with
     | tags ts =>
-      simp only [conformsDef] at hc
+      simp only [conformsDef, Bool.and_eq_true] at hc
+      replace hc := hc.1
       simp only [infoOf]
       refine ⟨ts, by simp [encodeDef], ?_, ?_⟩
       · cases ts with
